@@ -224,7 +224,8 @@ pub fn minimise_case(case: &MapperCase, fails: &dyn Fn(&MapperCase) -> bool) -> 
   let mut best = case.clone();
   let mut changed = true;
   let mut rounds = 0;
-  while changed && rounds < 50 {
+  let dl = Deadline::after_secs(60);
+  while changed && rounds < 50 && !dl.passed() {
     changed = false;
     rounds += 1;
     // drop steps (from the end)
